@@ -1,18 +1,39 @@
 import Driver.Util
 import OptunaVerif.Model.SearchSpace
+import OptunaVerif.Generated.SearchSpaceMethods
 /-! Sub-driver `searchspace`: the search-space models behind the line protocol (C17).
 
 Stateful ops drive one `Sys` (trials of one study + one intersection calculator + one group calculator):
 `reset`, `create`, `setParam`, `setState`, `callI`, `callForeign`, `callG` (any of them with `"dump":true`
 also returns the model's trial list).  Stateless ops evaluate the pure functions on given arguments:
-`scratch` (`intersection_search_space`), `calcRaw` (`_calculate`), `add` (`add_distributions`). -/
+`scratch` (`intersection_search_space`), `calcRaw` (`_calculate`), `add` (`add_distributions`).
+
+Every answer carries `"gen"`: the same step / function evaluated by the interpreter of the methods GENERATED from the
+source (`Generated/SearchSpaceMethods.lean`, `Model/SpaceIR.lean`; a second `Sys` is stepped through
+`SpaceIR.stepW (genImpl …)`) — `null` when it agrees with the hand model on the answer and on the whole state (trials,
+calculator attributes, groups), else both sides.  `reset` and the stateless ops accept `"single":[tok..]`, the tokens whose
+distribution answers `single() == True`. -/
 open Lean
 namespace Driver.Sub.SearchSpace
-open OptunaVerif OptunaVerif.SearchSpace Driver
+open OptunaVerif OptunaVerif.SearchSpace OptunaVerif.SpaceIR Driver
+open OptunaVerif.Generated
 
 structure St where
   sid : Nat
   sys : Sys
+  /-- the same history through the interpreter of the generated calculators -/
+  gsys : Sys
+  singles : List Nat
+
+def genImplOf (singles : List Nat) : Impl :=
+  genImpl SearchSpaceMethods.interProg SearchSpaceMethods.groupProg (fun tok => singles.contains tok)
+
+def singlesOf (j : Json) : List Nat :=
+  match optF j "single" with
+  | some v => match v.getArr? with
+    | .ok a => a.toList.filterMap (fun x => x.getNat?.toOption)
+    | .error _ => []
+  | none => []
 
 def parseDists (j : Json) : P Dists := do
   mapM' (fun p => do
@@ -61,23 +82,45 @@ def optSpace (j : Json) (k : String) : P (Option Dists) :=
   | none => pure none
   | some v => do return some (← parseDists v)
 
+def errName : SpaceIR.Err → String
+  | .valueError => "valueError" | .keyError => "keyError" | .typeError => "typeError" | .unrepresentable => "unrepresentable"
+
+def genOf {α : Type} [BEq α] (show_ : α → Json) (hand : α) : Except SpaceIR.Err α → Json
+  | .ok g => if g == hand then Json.null else Json.mkObj [("hand", show_ hand), ("generated", show_ g)]
+  | .error e => Json.mkObj [("hand", show_ hand), ("generated", Json.mkObj [("raised", errName e)])]
+
 def stateless (j : Json) (op : String) : P Json := do
   match op with
   | "scratch" =>
-    return Json.mkObj [("d", distsJson (intersectionSearchSpace (← parseTrials (← field j "trials")) (← boolF j "ip")))]
+    let ts ← parseTrials (← field j "trials")
+    let ip ← boolF j "ip"
+    let h := intersectionSearchSpace ts ip
+    return Json.mkObj [("d", distsJson h), ("gen", genOf distsJson h (interpFunctional SearchSpaceMethods.interProg ts ip))]
   | "calcRaw" =>
-    let r := calcRaw (← parseTrials (← field j "trials")) (← boolF j "ip") (← optSpace j "space") (← intF j "cached")
-    return Json.mkObj [("space", optDistsJson r.1), ("next", (r.2 : Json))]
+    let ts ← parseTrials (← field j "trials")
+    let ip ← boolF j "ip"
+    let sp ← optSpace j "space"
+    let c ← intF j "cached"
+    let r := calcRaw ts ip sp c
+    let pj := fun (x : Option Dists × Int) => Json.mkObj [("space", optDistsJson x.1), ("next", (x.2 : Json))]
+    return Json.mkObj [("space", optDistsJson r.1), ("next", (r.2 : Json)),
+      ("gen", genOf pj r (interpCalculate SearchSpaceMethods.calculate ts ip sp c))]
   | "add" =>
     let gs ← mapM' parseDists (← arrF j "groups")
-    return Json.mkObj [("g", groupsJson (addDistributions gs (← parseDists (← field j "d"))))]
+    let d ← parseDists (← field j "d")
+    let singles := singlesOf j
+    let h := addDistributions gs d
+    return Json.mkObj [("g", groupsJson h),
+      ("gen", genOf groupsJson h (interpAdd SearchSpaceMethods.addDistributions (fun tok => singles.contains tok) gs d))]
   | _ => throw s!"unknown op {op}"
 
 def handle (s : St) (j : Json) : St × Json :=
   match j.getObjVal? "op" with
   | .ok (Json.str "reset") =>
     match natF j "sid", boolF j "ipI", boolF j "ipG" with
-    | .ok sid, .ok a, .ok b => ({ sid := sid, sys := Sys.init a b }, Json.mkObj [("k", "reset")])
+    | .ok sid, .ok a, .ok b =>
+      let singles := singlesOf j
+      ({ sid := sid, sys := Sys.init a b, gsys := initW (genImplOf singles) a b, singles := singles }, Json.mkObj [("k", "reset")])
     | _, _, _ => (s, Json.mkObj [("k", "bad-op"), ("why", "reset needs sid, ipI, ipG")])
   | .ok (Json.str op) =>
     if op == "scratch" || op == "calcRaw" || op == "add" then
@@ -89,14 +132,21 @@ def handle (s : St) (j : Json) : St × Json :=
       | .error e => (s, Json.mkObj [("k", "bad-op"), ("why", e)])
       | .ok st =>
         let r := step s.sid s.sys st
-        let base := [("out", outJson r.2), ("cursor", (r.1.isp.cursor : Json)), ("space", optDistsJson r.1.isp.space),
+        let rg := stepW (genImplOf s.singles) s.sid s.gsys st
+        let sysJson := fun (x : Sys) => Json.mkObj [("cursor", (x.isp.cursor : Json)), ("space", optDistsJson x.isp.space),
+          ("studyId", optJson (fun (n : Nat) => (n : Json)) x.isp.studyId), ("groups", groupsJson x.gsp.groups),
+          ("trials", (x.trials.length : Nat))]
+        let gen : Json := if rg.2 == r.2 && rg.1 == r.1 then Json.null
+          else Json.mkObj [("hand", Json.mkObj [("out", outJson r.2), ("state", sysJson r.1)]),
+                           ("generated", Json.mkObj [("out", outJson rg.2), ("state", sysJson rg.1)])]
+        let base := [("gen", gen), ("out", outJson r.2), ("cursor", (r.1.isp.cursor : Json)), ("space", optDistsJson r.1.isp.space),
           ("groups", groupsJson r.1.gsp.groups)]
         let withDump := if (fieldD j "dump" (Json.bool false)).getBool?.toOption.getD false
           then base ++ [("trials", Json.arr (r.1.trials.map trialJson).toArray)] else base
-        ({ s with sys := r.1 }, Json.mkObj withDump)
+        ({ s with sys := r.1, gsys := rg.1 }, Json.mkObj withDump)
   | _ => (s, Json.mkObj [("k", "bad-op"), ("why", "no op")])
 
 /-- entry point: `driver searchspace` -/
-def main : IO Unit := Driver.lineLoop handle { sid := 0, sys := Sys.init false false }
+def main : IO Unit := Driver.lineLoop handle { sid := 0, sys := Sys.init false false, gsys := Sys.init false false, singles := [] }
 
 end Driver.Sub.SearchSpace
